@@ -225,3 +225,31 @@ def frame_stream_split(ctx, rule):
             ctx.check(o == ("param", 1, (fld,)), rule, b.key, "receive half keeps %s" % fld,
                       "split() gives the receive half %s = %s instead of self.%s: splitting in the middle of a DATA frame makes the "
                       "rest of the payload parse as frame headers" % (fld, fl.fmt(o), fld), fl.fmt(o), b.loc(s))
+
+
+def request_stream_split(ctx, rule):
+    """RequestStream::split: the receive half takes over what belongs to receiving (parked trailers, the local limit);
+    the send half starts without trailers."""
+    prog = ctx.prog
+    b = ru.need(ctx, rule, "h3::connection::RequestStream::split")
+    if not b:
+        return
+    f = fl.Flow(b, prog)
+    ags = ru.aggregates(b, "h3::connection::RequestStream")
+    halves = {"0": [], "1": []}
+    for bb, s in ags:
+        o = f.origin(ru.field_op(s, "stream"))
+        k = o[-1][-1:] if o and o[0] in ("proj", "param") or (o and isinstance(o[-1], tuple)) else ()
+        if k in (("0",), ("1",)):
+            halves[k[0]].append(s)
+    ctx.check(len(halves["0"]) == 1 and len(halves["1"]) == 1, rule, b.key, "one send half and one receive half built from the inner split",
+              "RequestStream::split builds %d send / %d receive halves" % (len(halves["0"]), len(halves["1"])), "")
+    for s in halves["1"]:
+        o = f.origin(ru.field_op(s, "trailers"))
+        ctx.check(o == ("param", 1, ("trailers",)), rule, b.key, "receive half keeps the parked trailers",
+                  "split() gives the receive half trailers = %s instead of self.trailers: trailers parked by poll_recv_data when the body ended are lost "
+                  "(recv_trailers() answers None) and a further HEADERS frame is accepted" % fl.fmt(o), fl.fmt(o), b.loc(s))
+    for s in halves["0"]:
+        o = f.origin(ru.field_op(s, "trailers"))
+        ctx.check(o[0] == "agg" and o[1].endswith("::None"), rule, b.key, "send half starts without trailers",
+                  "split() gives the send half trailers = %s" % fl.fmt(o), fl.fmt(o), b.loc(s))
